@@ -283,13 +283,6 @@ where
             Op09::Reopen => "Reopen".into(),
         }
     }
-    fn required_labels(&self) -> Vec<String> {
-        let mut v: Vec<String> = ["Next", "NoHeight", "Skip", "Same", "Prev", "NextAndSkip", "SameAndNext"].iter().map(|s| s.to_string()).collect();
-        if self.rocks.is_some() {
-            v.push("Reopen".into());
-        }
-        v
-    }
     fn interesting(&self, _op: &Op09, obs: &str) -> bool {
         obs.starts_with("rejected") || obs.starts_with("accepted") || obs.starts_with("reopened")
     }
@@ -394,9 +387,10 @@ fn run_desc<D: Desc>(cli: &Cli, threads: usize, rf: Option<&ReplayFile>) -> Vec<
 where
     Database<D>: Modifiable + StorageInspect<MetadataTable<D>, Error = StorageError>,
 {
-    let mut subs: Vec<Subject09<D>> = vec![Subject09 { rocks: None, _d: Default::default() }, Subject09 { rocks: Some(Policy::NoRewind), _d: Default::default() }];
-    subs.push(Subject09 { rocks: Some(Policy::Full), _d: Default::default() });
-    if cli.tier == Tier::Thorough {
+    // quick: memory + RocksDB with history; thorough (and replay): every policy
+    let mut subs: Vec<Subject09<D>> = vec![Subject09 { rocks: None, _d: Default::default() }, Subject09 { rocks: Some(Policy::Full), _d: Default::default() }];
+    if cli.tier == Tier::Thorough || rf.is_some() {
+        subs.push(Subject09 { rocks: Some(Policy::NoRewind), _d: Default::default() });
         subs.push(Subject09 { rocks: Some(Policy::Range(1)), _d: Default::default() });
     }
     if let Some(rf) = rf {
@@ -408,7 +402,7 @@ where
         return vec![];
     }
     let depth_of = |s: &Subject09<D>| if s.rocks.is_some() { cli.tier.pick(3, 6) } else { cli.tier.pick(6, 8) };
-    crate::util::explore_parallel(&subs, |s| Bounds::new(depth_of(s), cli).wall(cli.tier.pick(50, 600)), threads)
+    crate::util::explore_parallel(&subs, |s| Bounds::new(depth_of(s), cli).wall(cli.tier.pick(110, 900)), threads)
 }
 
 pub fn run(cli: &Cli) {
@@ -429,6 +423,10 @@ pub fn run(cli: &Cli) {
         hs.into_iter().flat_map(|h| h.join().unwrap_or_else(|_| machinery_failure("an exploration thread panicked"))).collect()
     });
     for r in all {
+        crate::util::require_labels(&r, &["Next", "NoHeight", "Skip", "Same", "Prev", "NextAndSkip", "SameAndNext"]);
+        if r.subject.contains("RocksDB") {
+            crate::util::require_labels(&r, &["Reopen"]);
+        }
         if !r.violations.is_empty() || !r.exhaustive {
             run.add(r);
         } else {
